@@ -105,3 +105,17 @@ package trace
 //@   ensures len(ts.list) == 0 ==> s == ""
 //@   loop#1 invariant 0 <= n && n <= 2*len(ts.list) + $k*512
 //@   loop#2 invariant 1 <= i && i <= len(ts.list)
+
+// ---- IDs and SpanContext (trace.go)
+//@ func (t TraceID) IsValid() (ok bool)
+//@   ensures ok == (exists i in 0 .. 16 : t[i] != 0)
+//@ func (s SpanID) IsValid() (ok bool)
+//@   ensures ok == (exists i in 0 .. 8 : s[i] != 0)
+//@ func (sc SpanContext) IsValid() (ok bool)
+//@   ensures ok == ((exists i in 0 .. 16 : sc.traceID[i] != 0) && (exists i in 0 .. 8 : sc.spanID[i] != 0))
+
+// context.Value lookups are outside the modelled subset: a deterministic function of the context (assumed).
+//@ func SpanContextFromContext(ctx context.Context) (sc SpanContext)
+//@   prop -
+//@   pure
+//@   trusted "context.Value lookup is not modelled; treated as a deterministic function of ctx"
